@@ -99,14 +99,23 @@ TraceAdvance ==
     /\ now' = Trace[l].now
     /\ UNCHANGED <<target, geo, duties, started, info, infoD, submitted, subAt, nsub, inflight, held, nheld, nref, nchg, jobs, attests, done>>
 
+\* A logged info entry is [slot, committee, v, agg, sv]: sv names the validator whose slot signature the
+\* entry holds as selection proof (0: nobody's), identified by the driver against slot signatures it obtained
+\* independently of the code under test (wired family: from the validators' own keys).
+InfoOf(logged) == {[slot |-> e.slot, committee |-> e.committee, v |-> e.v, agg |-> e.agg] : e \in SeqToSet(logged)}
+\* the signer's batch contract seen from the store (ProofsOwn of SubscriberSigner): the selection proof kept
+\* for a validator - the slot signature its aggregation job will carry - is that validator's own
+OwnProofs(logged) == \A e \in SeqToSet(logged) : e.sv = e.v
+
 \* the part of a store an attestation job can still read with effect
 Rel(I, t, dn) == {e \in I : e.agg /\ e.slot >= t /\ e.slot \notin dn}
-StoreKept(logged) == Rel(SeqToSet(logged), now, done) = Rel(info', now, done)
+StoreKept(logged) == Rel(InfoOf(logged), now, done) = Rel(info', now, done) /\ OwnProofs(logged)
 
 TraceSubscribe ==
     /\ IsEvent("Subscribe")
     /\ IF Trace[l].ok
-       THEN SubscribeWithF(SeqToSet(Trace[l].info), SeqToSet(Trace[l].subs), SeqToSet(Trace[l].sfail))
+       THEN /\ SubscribeWithF(InfoOf(Trace[l].info), SeqToSet(Trace[l].subs), SeqToSet(Trace[l].sfail))
+            /\ OwnProofs(Trace[l].info)
        ELSE SubscribeFail /\ StoreKept(Trace[l].info)
 
 TraceHead ==
@@ -119,7 +128,8 @@ TraceHead ==
 TraceResub ==
     /\ IsEvent("Resub")
     /\ IF Trace[l].ok
-       THEN ResubOkF(SeqToSet(Trace[l].info), SeqToSet(Trace[l].subs), SeqToSet(Trace[l].sfail))
+       THEN /\ ResubOkF(InfoOf(Trace[l].info), SeqToSet(Trace[l].subs), SeqToSet(Trace[l].sfail))
+            /\ OwnProofs(Trace[l].info)
        ELSE ResubFail /\ StoreKept(Trace[l].info)
 
 TraceFetch ==
@@ -131,7 +141,8 @@ TraceFinish ==
     /\ IsEvent("Finish")
     /\ \E c \in held :
           /\ c.id = Trace[l].id
-          /\ HeldFinish(c, SeqToSet(Trace[l].info), SeqToSet(Trace[l].subs))
+          /\ HeldFinish(c, InfoOf(Trace[l].info), SeqToSet(Trace[l].subs))
+          /\ OwnProofs(Trace[l].info)
 
 LoggedJobs(js) == {[slot |-> j.slot, committee |-> j.committee, v |-> j.v, at |-> j.at, exact |-> JobExact(j)] : j \in js}
 
